@@ -166,6 +166,14 @@ impl Iterator for CfgNextsIterator {
             for suc in node.nexts().iter() {
                 self.queue.push(Rc::clone(suc));
             }
+            #[cfg(feature = "rva_verif")]
+            crate::verif::order_tail(
+                "iter_nexts",
+                &mut self.queue,
+                node.nexts().len(),
+                &node,
+                crate::verif::Kind::Nexts,
+            );
 
             return Some(node);
         }
@@ -215,6 +223,14 @@ impl Iterator for CfgPrevsIterator {
             for suc in node.prevs().iter() {
                 self.queue.push(Rc::clone(suc));
             }
+            #[cfg(feature = "rva_verif")]
+            crate::verif::order_tail(
+                "iter_prevs",
+                &mut self.queue,
+                node.prevs().len(),
+                &node,
+                crate::verif::Kind::Prevs,
+            );
 
             return Some(node);
         }
